@@ -70,6 +70,9 @@ pub enum Sym {
     GetDrop(u8),
     Touch(u8),
     Maintain(u8),
+    /// (stacked front-end) ensure: a hit marks; a key held only by the read-only level (k1) is promoted, i.e. inserted
+    /// fresh and unmarked; a miss everywhere is populated, inserted and then re-opened by the lookup that returns it
+    Ensure(u8),
 }
 
 impl Sym {
@@ -87,6 +90,8 @@ impl Sym {
             Sym::GetRead(nums[0])
         } else if s.starts_with("GetDrop") {
             Sym::GetDrop(nums[0])
+        } else if s.starts_with("Ensure") {
+            Sym::Ensure(nums[0])
         } else if s.starts_with("Touch") {
             Sym::Touch(nums[0])
         } else {
@@ -104,6 +109,9 @@ fn alphabet(cfg: &Config) -> Vec<Sym> {
         v.push(Sym::GetRead(k));
         v.push(Sym::GetDrop(k));
         v.push(Sym::Touch(k));
+        if cfg.front == 2 {
+            v.push(Sym::Ensure(k));
+        }
     }
     if cfg.init != 4 {
         for c in 0..3u8 {
@@ -151,6 +159,7 @@ fn open_live(cfg: &Config) -> Live {
     if cfg.front == 2 {
         let old = base as i128 - 86_400_000_000_000;
         world::plant(&dirs.reads[0].join("other"), b"bystander", 0o444, old - 120_000_000_000, old);
+        world::plant(&dirs.reads[0].join("k1"), &Val::one(20).bytes(), 0o444, old - 120_000_000_000, old);
     }
     let mut model = Vec::new();
     if cfg.init != 0 {
@@ -254,6 +263,7 @@ fn step(live: &mut Live, cfg: &Config, sym: &Sym, rep: &mut Report, check: bool)
                 Sym::GetRead(k) => Op::Get(keys[*k as usize].clone()),
                 Sym::GetDrop(k) => Op::GetNoRead(keys[*k as usize].clone()),
                 Sym::Touch(k) => Op::Touch(keys[*k as usize].clone()),
+                Sym::Ensure(k) => Op::Ensure(keys[*k as usize].clone(), ops::Pop::Value(Val::one(3))),
                 Sym::Maintain(_) => unreachable!(),
             };
             // sharded: a fresh handle per operation (as a fresh process would have), so that in-memory
@@ -328,6 +338,25 @@ fn step(live: &mut Live, cfg: &Config, sym: &Sym, rep: &mut Report, check: bool)
             if let Some(i) = pos(&live.model, &n) {
                 live.model[i].marked = true;
                 marking = Some(n);
+            }
+        }
+        Sym::Ensure(k) => {
+            let n = name_of(*k);
+            match pos(&live.model, &n) {
+                Some(i) => {
+                    live.model[i].marked = true;
+                    marking = Some(n);
+                }
+                None if n == "k1" => {
+                    // promoted from the read-only level: a fresh, unread entry
+                    live.model.push(MEntry { name: n.clone(), val: Val::one(20), marked: false });
+                    inserting = Some(n);
+                }
+                None => {
+                    // populated, inserted, then handed back through a lookup of the new entry (a read)
+                    live.model.push(MEntry { name: n.clone(), val: Val::one(3), marked: true });
+                    inserting = Some(n);
+                }
             }
         }
     }
@@ -693,7 +722,7 @@ fn fault_section(shard: Shard, rep: &mut Report) {
 
 pub fn run(tier: Tier, shard: Shard, rep: &mut Report) {
     rep.rule = "breadth-first search over operation sequences on 2 (3) keys of one directory: {set k A|B, put k C, get k + read to the end, \
-        get k dropped unread, touch k, maintenance with capacity 0/1/2} x front-end {plain, sharded, stacked} x emulated access-time \
+        get k dropped unread, touch k, (stacked) ensure k with k1 also held by the read-only level, maintenance with capacity 0/1/2} x front-end {plain, sharded, stacked} x emulated access-time \
         policy {noatime, relatime, strict} x (timestamp granularity, clock step) in {(1 ns, 1 ms), (1 ns, frozen), (1 s, 0.4 s), (1 s, \
         1.5 s), (2 s, 0.7 s), (2 s, 3 s)}; states deduplicated on (name, value, mtime rank with ties, read mark, clock phase); after every \
         step the directory is compared with an abstract queue (a hit/touch/put-on-existing sets the mark and changes neither mtime nor \
